@@ -18,7 +18,7 @@
    are no escapes, so it never contains both).                                                     *)
 EXTENDS Naturals, Sequences, FiniteSets, TLC
 
-CONSTANTS Atoms, MaxDepth
+CONSTANTS Atoms, MaxDepth, Tri      \* Tri: also 3-ary chains over the atoms
 
 \* ---- trees -----------------------------------------------------------------------------------------
 Leaf(a) == [op |-> "leaf", a |-> a]
@@ -32,7 +32,7 @@ Step(S, tri) ==
       \cup { Nary(op, <<x, y>>) : op \in {"and", "or"}, x \in S, y \in S }
       \cup (IF tri THEN { Nary(op, <<x, y, z>>) : op \in {"and", "or"}, x \in S, y \in S, z \in S } ELSE {})
 T0 == { Leaf(a) : a \in Atoms }
-T1 == Step(T0, TRUE)
+T1 == Step(T0, Tri)
 T2 == Step(T1, FALSE)
 Trees(d) == CASE d = 0 -> T0 [] d = 1 -> T1 [] d = 2 -> T2
 
